@@ -163,6 +163,7 @@ func cmdRun(args []string) int {
 
 	workDir := filepath.Join(verifRoot, ".work", fmt.Sprintf("%s-%s-%d", *prop, *tier, os.Getpid()))
 	defer os.RemoveAll(workDir)
+	defer os.RemoveAll(filepath.Join(verifRoot, ".work", fmt.Sprintf("patched-%d", os.Getpid())))
 	loadAttempt := 0
 reload:
 	loadAttempt++
@@ -215,8 +216,15 @@ reload:
 	if err != nil {
 		// harness files that do not compile against this tree are dropped and the load is repeated: the
 		// remaining harnesses still run (and may report violations); the run cannot end "held" any more
-		if broken := brokenHarnessFiles(err.Error()); len(broken) > 0 && loadAttempt < 6 {
+		if broken := brokenHarnessFiles(err.Error()); len(broken) > 0 && loadAttempt < 10 {
+			lines, unused := brokenHarnessSites(err.Error())
 			for _, f := range broken {
+				// first cut out only the declarations that do not compile; drop the file if that is not possible
+				// (or was tried for this file three times already)
+				if loadAttempt <= 6 && cutBrokenFuncs(f, lines[f], unused[f]) {
+					fmt.Printf("HARNESS-DROPPED declarations of %s do not compile against the tree under analysis (cut: %v):\n", f, droppedHarnessFuncs)
+					continue
+				}
 				droppedHarnessFiles[f] = true
 				fmt.Printf("HARNESS-DROPPED %s does not compile against the tree under analysis:\n", f)
 			}
@@ -527,8 +535,8 @@ reload:
 			exit = 2
 		}
 	}
-	if len(droppedHarnessFiles) > 0 && exit == 0 {
-		fmt.Printf("[%s] %d harness file(s) do not compile against the tree under analysis: their obligations were not checked (exit 2)\n", *prop, len(droppedHarnessFiles))
+	if (len(droppedHarnessFiles) > 0 || len(droppedHarnessFuncs) > 0) && exit == 0 {
+		fmt.Printf("[%s] %d harness file(s) and %d declaration(s) %v do not compile against the tree under analysis: their obligations were not checked (exit 2)\n", *prop, len(droppedHarnessFiles), len(droppedHarnessFuncs), droppedHarnessFuncs)
 		exit = 2
 	}
 	if unconfirmed > 0 && exit == 0 {
